@@ -319,6 +319,17 @@ def run_hist(spec):
                 elif method == 'SVD_opts':
                     err = psi.compress({'compression_method': 'SVD', 'trunc_params': {'chi_max': chi_max}})
                 else:
+                    # documented return value of the variational method: "the maximal truncation error of a two-site wave function":
+                    # record every two-site truncation that is performed (harness wrapper around svd_theta)
+                    from tenpy.algorithms import mps_common as _mc
+                    recorded = []
+                    _orig = _mc.svd_theta
+
+                    def _rec(*a, **kw):
+                        res = _orig(*a, **kw)
+                        recorded.extend(float(r.eps) for r in res if type(r).__name__ == 'TruncationError')
+                        return res
+                    _mc.svd_theta = _rec
                     try:
                         err = psi.compress({'compression_method': 'variational', 'trunc_params': {'chi_max': chi_max}, 'max_sweeps': 3})
                     except Exception as e:
@@ -327,12 +338,17 @@ def run_hist(spec):
                             psi = backup
                             continue
                         raise
+                    finally:
+                        _mc.svd_theta = _orig
+                    if recorded:
+                        require(abs(err.eps - max(recorded)) <= 1e-12, 'compress-max-two-site-error',
+                                'reported eps = %r, maximal eps of the %d two-site truncations performed = %r' % (err.eps, len(recorded), max(recorded)), method=method, **tags)
                 psi.test_sanity()
                 require(max(psi.chi) <= chi_max, 'compress-chi_max', '%s > %d' % (psi.chi, chi_max), method=method, **tags)
                 after = M.mps_to_dense(psi)
                 na = np.linalg.norm(after)
                 ov2 = abs(np.vdot(before, after)) ** 2 / (nb * na) ** 2
-                if err is not None and hasattr(err, 'ov'):
+                if err is not None and hasattr(err, 'ov') and method != 'variational':
                     require(ov2 >= err.ov - 1e-9, 'compress-error-bound', 'overlap^2 %r < reported lower bound %r (eps=%r)' % (ov2, err.ov, err.eps), method=method, **tags)
                     if max(M.schmidt_values(before / nb, list(before.shape), k).size for k in range(1, L)) <= chi_max and method != 'variational':
                         pass
